@@ -234,7 +234,15 @@ def gen_C11(v, n, model):
             if rng.random() < 0.3:   # a sidecar-like hidden file and a foreign file next to the entity
                 junk.append({"path": p.rsplit("/", 1)[0] + "/.stray.data.json", "kind": "file"})
                 junk.append({"path": p.rsplit("/", 1)[0] + "/notes.txt", "kind": "file"})
-        # junk must not conform: keep only paths the model resolves to an untyped Sid
+        # junk must not conform: keep only paths the model resolves to an untyped Sid, and only inside
+        # directories the universe already has (planting must not create new conform folders on the way)
+        have = set()
+        for a in model(ask):
+            q = a.get("ok")
+            while q and q.count("/") > 1:
+                q = q.rsplit("/", 1)[0]
+                have.add(q)
+        junk = [j for j in junk if j["path"].rsplit("/", 1)[0] in have]
         verdict = model([{"op": "sid", "path": j["path"], "config": cfg} for j in junk])
         junk = [j for j, a in zip(junk, verdict) if a.get("ok", {}).get("type") == ""]
         out.append(_op("C11", {"leaves": ls, "junk": junk[:8], "searches": _searches(v, leaves, 8) + ["hamlet/a/**", "hamlet/s/**", "hamlet/*"]}))
